@@ -9,6 +9,7 @@ LeadPublishedFooterReadable == Lead(PublishedFooterReadable)
 LeadOpenNeverFails == Lead(OpenNeverFails)
 LeadAtLeastSynced == Lead(AtLeastSynced)
 LeadCurrentFileExists == Lead(CurrentFileExists)
+LeadAllClosedAllReleased == Lead(AllClosedAllReleased)
 \* a read-only store is open while the directory holds fewer files than before its open
 \* (state-level stand-in for the action property ReadOnlyOpenFrame, for lead harvesting)
 LeadReadOnlyFiles == Lead(~(open /\ ro /\ Len(hist) > 0 /\ hist[Len(hist)].act = "Reopen"
